@@ -41,6 +41,7 @@ class Ctx:
         self.tier = tier
         self.builddir = builddir
         self.tmpdir = None
+        self.stop_at = None     # wall-clock deadline of the batch (long runs may cut their enumeration short and say so)
 
     def op(self, i):
         """Record 'about to execute op i' so that a process death can be attributed."""
@@ -67,6 +68,7 @@ def _worker_loop(mod, seed, tier, w, nworkers, start, stop_at, max_index, wfd, j
     """Child process: execute runs start, start+nworkers, ... and stream results to the parent."""
     out = os.fdopen(wfd, "wb", buffering=0)
     ctx = Ctx(journal, known_keys, tier, builddir)
+    ctx.stop_at = stop_at
     ctx.tmpdir = os.path.join(tmproot, "w%d" % w)
     os.makedirs(ctx.tmpdir, exist_ok=True)
     os.chdir(ctx.tmpdir)
